@@ -258,6 +258,30 @@ def closure(base, terms, steps=False, rounds=4):
                     same += _eq(T.mul(q2, y), T.mul(q1, y))
                     step += _eq(T.mul(q2, y), T.add(T.mul(q1, y), y))
                 alts = [a_ + b_ for a_ in alts for b_ in (same, step)]
+    # first hit of a search: first(enumerate(v), |(i, x)| P(x)) is (0, v[0]) when P(v[0]) is entailed
+    hits = []
+    for t in list(terms) + facts:
+        for x in T.subterms(t):
+            if isinstance(x, tuple) and len(x) == 4 and x[0] == 'case' and x[2] == 'Some' and isinstance(x[1], tuple) and x[1] and x[1][0] == 'first' \
+                    and isinstance(x[1][1], tuple) and x[1][1][0] == 'enumerate' and isinstance(x[1][1][1], tuple) and x[1][1][1][0] == 'elems' \
+                    and x[1][2][0] == 'lam' and x not in hits:
+                hits.append(x)
+    if hits:
+        out = []
+        for f in alts:
+            extra = []
+            for x in hits:
+                v = x[1][1][1][1]
+                d = x[1][2][1]
+                first_elem = T.root(('idx', v, T.const(0)))
+                P0 = T.substitute(x[1][2][2], {('f', ('bv', d), '1'): first_elem})
+                if T.mentions(P0, ('bv', d)):
+                    continue
+                c = _conds(P0)
+                if c is not None and len(c) == 1 and all(entails_le0(f, g) for g in c[0]):
+                    extra += _eq(T.root(('f', x, '0')), T.const(0)) + _eq(T.root(('f', x, '1')), first_elem)
+            out.append(f + extra)
+        alts = out
     # congruence for indexing: v[a] = v[b] when a = b is entailed
     idxs = []
     for t in list(terms) + facts:
